@@ -121,19 +121,27 @@ def rule_R3(ctx):
     b = P.method1(H2, "build_stream")
     S = T.Slicer(b, P)
     want = {"method": ":method", "path": ":path", "authority": ":authority", "scheme": ":scheme", "status": ":status"}
-    locs = {b.local_name(l): l for l in range(len(b.locals)) if b.local_name(l)}
+    from ..engine import guards as GV
+    ag = Q.aggregates(b, "Http2Stream")
+    if len(ag) != 1 or ag[0][2]["p"]["pr"]:
+        ctx.cannot("R3", "Http2Stream", "expected one Http2Stream construction in build_stream, found %d" % len(ag), ctx.loc(b))
+        return
+    ai, aj, as_ = ag[0]
     n = 0
     for name, lit in want.items():
-        l = locs.get(name)
-        if l is None:
-            ctx.cannot("R3", "pseudo:" + name, "local `%s` not found" % name, ctx.loc(b))
+        # every assignment that can supply Http2Stream.<name> - through a local of its own moved into the constructor at the end, or
+        # assigned to the field of a stream built up front
+        if name not in as_["r"]["fields"]:
+            ctx.cannot("R3", "pseudo:" + name, "Http2Stream has no field `%s`" % name, ctx.loc(b))
             continue
+        k_ = as_["r"]["fields"].index(name)
+        asg = GV.assignments_of(P, b, S, {"l": as_["p"]["l"], "pr": [{"f": k_, "n": name}]})
         lits = set()
-        for (db, dj, full) in S.defs().get(l, []):
-            term = S.def_term(l, db, dj, 0)
-            if term[0] == "agg" and term[3] == "None":
+        for (term, conds_, (db, dj)) in asg:
+            tt_ = T.strip(term)
+            if tt_[0] == "agg" and tt_[3] == "None":
                 continue
-            for c in Q.canon_conds(P, T.dom_conds(b, S, db)):
+            for c in conds_:
                 if c[0] == "cmp" and c[1] == "Eq" and c[4]:
                     for side in (c[2], c[3]):
                         ss = T.strip(side)
@@ -142,17 +150,6 @@ def rule_R3(ctx):
         n += 1
         ctx.check(lits == {lit}, "R3", "pseudo:" + name, "`%s` -> %s" % (lit, name), "field `%s` is assigned under header name(s) %s, expected `%s`" % (name, sorted(lits), lit), ctx.loc(b))
     ctx.floor("R3", "pseudo-header fields", n, 5)
-    # stream aggregate uses those locals by name
-    ag = Q.aggregates(b, "Http2Stream")
-    if ag:
-        i, j, s = ag[0]
-        okk = True
-        for fname, o in zip(s["r"]["fields"], s["r"]["ops"]):
-            p = o.get("m") or o.get("c")
-            if fname in want and not (p and b.local_name(p["l"]) == fname):
-                # moved through a temporary: follow one copy
-                okk = okk and (p is not None and TB._root_local(b, p["l"]) == locs.get(fname))
-        ctx.check(okk, "R3", "Http2Stream:fields", "Http2Stream{method,path,authority,scheme,status} from the like-named locals", "Http2Stream fields are wired to different locals", ctx.loc(b, i))
     # request needs method + path, response needs status
     for fn, req in (("parse_request", {"method", "path"}), ("parse_response", {"status"})):
         pb = P.method1(H2, fn)
